@@ -37,7 +37,8 @@ tensor/TensorFunctions.h, tensor/IndexRetriever.h, tensor/Tensor.h, tensor/Initi
   values.  Visibility "through the source and vice versa" is the single `buf` component of the state.
 * `aligned_flag_irrelevant`: the state after a step does not depend on `is_aligned()`; `map_never_aligned`: a step
   through a map issues no aligned access.
-* `ctor_rowmajor`, `ctor_columnmajor`, `ilist1_rowmajor … ilist4_rowmajor`: constructors store row-major.
+* `ctor_rowmajor`, `ctor_columnmajor`, `ilist1_rowmajor … ilist4_rowmajor` (value `(i,j,k,l)` of a rectangular nested
+  list ends at `((i·N+j)·P+k)·Q+l`): constructors store row-major.
 Not in the model: views / reductions / evaluation-requiring right-hand sides through maps (value runs on the real
 types), `TensorMap<const T>` (compile acceptance).
 -/
@@ -328,6 +329,78 @@ theorem ilist2_rowmajor (ll : List (List α)) (N : Nat) (hrect : ∀ row ∈ ll,
   rw [seqWrites_memory _ init _ hlen, ← flatten_rect_getElem? ll N hrect i j hj, List.getElem?_eq_getElem hlen]
 
 example : applyWrites (ilistWrites2 [[(1 : Int), 2, 3], [4, 5, 6]] 0).1 (fun _ => 0) (1 * 3 + 2) = 6 := by decide
+
+/-- row-major reading of a rectangular rank-3 list -/
+theorem ilist3_rowmajor (l3 : List (List (List α))) (N P : Nat)
+    (hrect2 : ∀ m ∈ l3, m.length = N) (hrect3 : ∀ m ∈ l3, ∀ row ∈ m, row.length = P) (init : Nat → α)
+    (i j k : Nat) (hi : i < l3.length) (hj : j < N) (hk : k < P) :
+    some (applyWrites (ilistWrites3 l3 0).1 init ((i * N + j) * P + k)) = ((l3[i]?).bind (·[j]?)).bind (·[k]?) := by
+  rw [ilist3_writes]
+  simp only []
+  have hrows : ∀ row ∈ l3.flatten, row.length = P := by
+    intro row hrow
+    obtain ⟨m, hm, hr⟩ := List.mem_flatten.1 hrow
+    exact hrect3 m hm row hr
+  have h1 := flatten_rect_getElem? l3 N hrect2 i j hj
+  have h2 := flatten_rect_getElem? l3.flatten P hrows (i * N + j) k hk
+  rw [h1] at h2
+  have hmi : (l3[i]).length = N := hrect2 _ (List.getElem_mem hi)
+  have hj' : j < (l3[i]).length := by rw [hmi]; exact hj
+  have hrow : ((l3[i])[j]).length = P := hrect3 _ (List.getElem_mem hi) _ (List.getElem_mem hj')
+  have hk' : k < ((l3[i])[j]).length := by rw [hrow]; exact hk
+  have hval : ((l3[i]?).bind (·[j]?)).bind (·[k]?) = some ((l3[i])[j])[k] := by
+    rw [List.getElem?_eq_getElem hi]; simp only [Option.bind_some]
+    rw [List.getElem?_eq_getElem hj']; simp only [Option.bind_some]
+    rw [List.getElem?_eq_getElem hk']
+  rw [hval] at h2 ⊢
+  obtain ⟨hlen, hv⟩ := List.getElem?_eq_some_iff.1 h2
+  rw [seqWrites_memory _ init _ hlen, hv]
+
+example : applyWrites (ilistWrites3 [[[(1 : Int), 2], [3, 4], [5, 6]], [[7, 8], [9, 10], [11, 12]]] 0).1 (fun _ => 0) ((1 * 3 + 2) * 2 + 1) = 12 := by
+  decide
+
+/-- row-major reading of a rectangular rank-4 list -/
+theorem ilist4_rowmajor (l4 : List (List (List (List α)))) (N P Q : Nat)
+    (hr2 : ∀ a ∈ l4, a.length = N) (hr3 : ∀ a ∈ l4, ∀ b ∈ a, b.length = P) (hr4 : ∀ a ∈ l4, ∀ b ∈ a, ∀ c ∈ b, c.length = Q)
+    (init : Nat → α) (i j k l : Nat) (hi : i < l4.length) (hj : j < N) (hk : k < P) (hl : l < Q) :
+    some (applyWrites (ilistWrites4 l4 0).1 init (((i * N + j) * P + k) * Q + l)) =
+      (((l4[i]?).bind (·[j]?)).bind (·[k]?)).bind (·[l]?) := by
+  rw [ilist4_writes]
+  simp only []
+  have hrows2 : ∀ b ∈ l4.flatten, b.length = P := by
+    intro b hb
+    obtain ⟨a, ha, hba⟩ := List.mem_flatten.1 hb
+    exact hr3 a ha b hba
+  have hrows3 : ∀ c ∈ l4.flatten.flatten, c.length = Q := by
+    intro c hc
+    obtain ⟨b, hb, hcb⟩ := List.mem_flatten.1 hc
+    obtain ⟨a, ha, hba⟩ := List.mem_flatten.1 hb
+    exact hr4 a ha b hba c hcb
+  have h1 := flatten_rect_getElem? l4 N hr2 i j hj
+  have h2 := flatten_rect_getElem? l4.flatten P hrows2 (i * N + j) k hk
+  have h3 := flatten_rect_getElem? l4.flatten.flatten Q hrows3 ((i * N + j) * P + k) l hl
+  rw [h1] at h2
+  rw [h2] at h3
+  have hai : (l4[i]).length = N := hr2 _ (List.getElem_mem hi)
+  have hj' : j < (l4[i]).length := by rw [hai]; exact hj
+  have hb : ((l4[i])[j]).length = P := hr3 _ (List.getElem_mem hi) _ (List.getElem_mem hj')
+  have hk' : k < ((l4[i])[j]).length := by rw [hb]; exact hk
+  have hc : (((l4[i])[j])[k]).length = Q := hr4 _ (List.getElem_mem hi) _ (List.getElem_mem hj') _ (List.getElem_mem hk')
+  have hl' : l < (((l4[i])[j])[k]).length := by rw [hc]; exact hl
+  have hval : (((l4[i]?).bind (·[j]?)).bind (·[k]?)).bind (·[l]?) = some (((l4[i])[j])[k])[l] := by
+    rw [List.getElem?_eq_getElem hi]; simp only [Option.bind_some]
+    rw [List.getElem?_eq_getElem hj']; simp only [Option.bind_some]
+    rw [List.getElem?_eq_getElem hk']; simp only [Option.bind_some]
+    rw [List.getElem?_eq_getElem hl']
+  rw [hval] at h3 ⊢
+  obtain ⟨hlen, hv⟩ := List.getElem?_eq_some_iff.1 h3
+  rw [seqWrites_memory _ init _ hlen, hv]
+
+/-- rank 1 -/
+theorem ilist1_rowmajor (l : List α) (init : Nat → α) (i : Nat) (hi : i < l.length) :
+    applyWrites (ilistWrites1 l 0).1 init i = l[i] := by
+  rw [ilist1_writes]; exact seqWrites_memory l init i hi
+
 
 /-! ### one memory, two names -/
 
